@@ -112,6 +112,16 @@ func NewServer() *Server {
 	return &Server{FaultAt: -1, StatusSub: map[string]bool{}}
 }
 
+// ArmFault schedules one fault: the at-th request from now on (counting
+// only requests to onlyResource when non-empty, and gets only when countGets)
+// fails with kind.
+func (s *Server) ArmFault(at, kind int, onlyResource string, countGets bool) {
+	s.faultSeq = 0
+	s.FaultAt, s.FaultKind, s.FaultOnlyResource, s.FaultCountsGets = at, kind, onlyResource, countGets
+}
+
+func (s *Server) DisarmFault() { s.FaultKind = FaultNone }
+
 func (s *Server) find(res, ns, name string) int {
 	for i, o := range s.objs {
 		if o.res == res && o.ns == ns && o.name == name {
